@@ -20,7 +20,8 @@ META = {
              'the small corpus files; each mutated program is labelled by the grammar itself (the same generated '
              'lexer/parser with counting error listeners, over the root and every included file); violated iff the '
              'grammar reports >= 1 error and MalCompiler().compile / LanguageGraph.from_mal_spec nevertheless returns; '
-             'non-trivial = the grammar classifies the mutated text as erroneous; distinct = digest(files)'),
+             'non-trivial = the grammar classifies the mutated text as erroneous; distinct = digest(files)'
+             '; added strata: characters no rule matches but str.splitlines / strip treat as breaks, include paths with a directory part and a well-formed decoy, 17-33 include levels, one compiler object asked 12 times, another directory with the same file names loaded first'),
     'assumptions': ['the oracle is the grammar\'s own verdict (S10); text the grammar silently ignores after the last '
                     'declaration (rule mal has no trailing EOF) is counted but outside the property'],
     'shards': {'quick': 8, 'thorough': 16},
